@@ -536,7 +536,7 @@ func c12(ctx *hlib.Ctx) {
 	// handle 1 grows the blob beyond its capacity; handle 0 must see the bytes and keep its position
 	e.emitK("seed-two-handles", 2, 2, nil, []c12op{W(1, 2, 3), on1(R(2)), on1(W(9)), on1(WA(8, 7)), R(1), SK(0, 0), R(12), on1(SK(0, 2)), on1(W(5, 5)), RA(20, 0), on1(SZ)})
 	e.emitK("seed-two-handles", 2, 0, nil, []c12op{on1(WA(3, 4)), R(2), on1(R(9)), W(8), on1(SK(-1, 2)), on1(R(3)), on1(WA(9)), SZ, RA(9, 0)})
-	e.emitK("seed-two-handles", 2, 8, nil, []c12op{W(1, 2), on1(SK(2, 0)), on1(W(3)), SK(5, 0), on1(SK(1, 2)), W(4), on1(RA(9, 0))})
+	e.emitK("seed-two-handles", 2, 8, nil, []c12op{W(1, 2), on1(SK(2, 0)), on1(W(3)), SK(3, 0), on1(SK(-1, 2)), W(4), on1(R(5)), on1(RA(9, 0))})
 
 	maxOps := 25
 	if ctx.Tier == "thorough" {
